@@ -38,6 +38,11 @@ contain exactly one of the two deviations of the current implementation (see fin
 of that episode equal such a variant the violation gets that variant's narrow mechanism name, otherwise a generic
 one.  The variant with no deviation is compared with the oracle in every case as a self-test of both.
 
+Transceiver source: every activation (span with exactly one send_* high) must carry whole sets of that type from the
+first word, `burst_complete` exactly on the last word of every 16th set (TS1/TS2); an activation that instead continues
+the word sequence an earlier, interrupted activation of the same type left behind is labelled with the third known
+mechanism (the set of possible left-over positions is tracked, so set-aligned interruptions are handled too).
+
 Not judged: `sink.ready` of the detector, `transmitting` of the transceiver, contradictory send_* requests (not
 generated), the first cycle after reset, sets whose symbol 4 is not D0.0 (not generated), reports when a request
 bit changes while the configuration word is stalled (counted as unjudged), latency beyond the windows above.
